@@ -988,7 +988,7 @@ def run(ctx: vf.Ctx):
     for i in range(n):
         cases.append(gen_case(rng, i, malformed=(rng.random() < 0.15)))
     cases += tree_directed()
-    for i in range(ctx.n(150, 6000)):
+    for i in range(ctx.n(120, 6000)):
         cases.append(gen_tree_case(rng, i))
     if not ctx.quick():
         nex, complete = 0, {}
